@@ -97,6 +97,11 @@ pub open spec fn settled(pending: Option<HashMap<String, String>>, work: Seq<cha
 }
 // ASSUMED (std): Vec::extend appends in order; slice::sort is a sorted rearrangement
 #[verifier::external_body] fn extend_changes(v: &mut Vec<Change>, src: Vec<Change>) ensures names(final(v)@) == names(old(v)@) + names(src@) { unimplemented!() }
+pub open spec fn no_dup_names(s: Seq<Seq<char>>) -> bool { forall|i: int, j: int| 0 <= i < j < s.len() ==> #[trigger] s[i] != #[trigger] s[j] }
+// ASSUMED (std): Vec::dedup on a sorted vector leaves one of each (equal names are adjacent once sorted); order and membership are kept
+#[verifier::external_body] fn dedup_changes(v: &mut Vec<Change>)
+    requires sorted_names(names(old(v)@)),
+    ensures sorted_names(names(final(v)@)), no_dup_names(names(final(v)@)), forall|p: Seq<char>| #![trigger has(names(final(v)@), p)] has(names(final(v)@), p) <==> has(names(old(v)@), p) { unimplemented!() }
 #[verifier::external_body] fn sort_changes(v: &mut Vec<Change>)
     ensures sorted_names(names(final(v)@)), forall|p: Seq<char>| #![trigger has(names(final(v)@), p)] has(names(final(v)@), p) <==> has(names(old(v)@), p) { unimplemented!() }
 //!assumed src/core/git.rs get_filtered_changes sha=7f9a521091b74cce
@@ -263,6 +268,9 @@ pub(crate) async fn get_git_all_changes<'a>(
 @        // C02: exactly the tracked differences plus the untracked paths, minus the paths whose current checksum is the one the checkpoint
 @        // recorded as pending - reported sorted
 @        res matches Ok(v) ==> sorted_names(names(v@)), // [C02]
+@        // ... each path once: a path that is both a tracked difference and an untracked file (removed by a later commit, back as an
+@        // untracked file) is one change
+@        res matches Ok(v) ==> no_dup_names(names(v@)), // [C02]
 @        res matches Ok(v) ==> forall|p: Seq<char>| #![trigger has(names(v@), p)] has(names(v@), p) <==>
 @            ((has(untracked_paths(work_path@), p) || has(tracked_part(work_path@, git_opts.begin, git_opts.end, checkpoint.id@), p)) && !settled(checkpoint.pending, work_path@, p)), // [C02,C07,C01]
 {
@@ -290,6 +298,7 @@ pub(crate) async fn get_git_all_changes<'a>(
     };
 @    assert forall|p: Seq<char>| #![trigger has(names(filtered_changes@), p)] has(names(filtered_changes@), p) <==> (has(all, p) && !settled(checkpoint.pending, work_path@, p)) by { }
     sort_changes(&mut filtered_changes);
+    dedup_changes(&mut filtered_changes);
     Ok(filtered_changes)
 }
 //!end
